@@ -993,6 +993,18 @@ def hijack_monitor(case, ob):
         if pr is not None and not (pr.get(want) and pr.get("result_nil")):
             bad.append("%s: the error of the Advanced StatefulSet API did not reach the caller (err=%r, result %s)" % (
                 probe, pr.get("err"), "nil" if pr.get("result_nil") else "not nil"))
+    if ob.get("err_watch"):
+        bad.append("Watch through the hijack client failed: " + ob["err_watch"])
+    if ob.get("err_delete"):
+        bad.append("Delete through the hijack client failed: " + ob["err_delete"])
+    if "watch_events" in ob:
+        evs = ob["watch_events"]
+        for e in evs:
+            if e["gotype"] != "*v1.StatefulSet" or e.get("api") != BI_VERSION:
+                bad.append("watch event %s carries %s typed %r, not an apps/v1 StatefulSet" % (e["type"], e["gotype"], e.get("api")))
+        kinds = [e["type"] for e in evs]
+        if "ADDED" not in kinds or "DELETED" not in kinds:
+            bad.append("the watch opened through the hijack client saw %s for objects that were created, updated and one deleted" % kinds)
     if ob.get("err_list"):
         bad.append("List failed: " + ob["err_list"])
     elif "list" in ob:
